@@ -217,6 +217,18 @@ class CursorLoop:
                     return
                 if isinstance(e, (ast.Lambda, ast.FunctionDef, ast.AsyncFunctionDef)):
                     return
+                if isinstance(e, ast.Name) and isinstance(e.ctx, ast.Load) and e.id in pending:
+                    # a use of a constant-width window taken from the cursor earlier: the window is interpreted here
+                    out.append((pending[e.id][0], pending[e.id][1], pc))
+                    return
+                if isinstance(e, ast.Call) and isinstance(e.func, ast.Name) and e.func.id == "len" and len(e.args) == 1 \
+                        and isinstance(e.args[0], ast.Name) and e.args[0].id in pending:
+                    return            # (measuring the window interprets nothing)
+                if isinstance(e, ast.Subscript) and isinstance(e.ctx, ast.Load) and isinstance(e.slice, ast.Slice):
+                    # a window `cursor[a:b]` with a constant end reads up to index b-1 (it never raises: short data yields the neighbours' bytes)
+                    w = window_of(e)
+                    if w is not None:
+                        out.append((e, w, pc))
                 if isinstance(e, ast.Subscript) and isinstance(e.ctx, ast.Load) and not isinstance(e.slice, ast.Slice):
                     t = term(e)
                     if t is not None:
@@ -232,10 +244,32 @@ class CursorLoop:
                 for ch in ast.iter_child_nodes(e):
                     walk(ch, pc)
 
+            pending = {}
+
+            def window_of(e):
+                sl = e.slice
+                if sl.step is not None or sl.upper is None or not (isinstance(sl.upper, ast.Constant) and isinstance(sl.upper.value, int) and sl.upper.value > 0):
+                    return None
+                if sl.lower is not None and not (isinstance(sl.lower, ast.Constant) and isinstance(sl.lower.value, int) and sl.lower.value >= 0):
+                    return None
+                t = term(e)
+                if t is None:
+                    return None
+                t2 = strip(t)
+                if t2[0] in ("slice", "sub") and strip(t2[1]) == self.c0:
+                    return sl.upper.value - 1
+                return None
+
             def stmts(body):
                 for st in body:
                     own = ta.env_at[st].pc if st in ta.env_at else ()
                     pc = tuple(base_pc) + tuple(own)
+                    if isinstance(st, ast.Assign) and len(st.targets) == 1 and isinstance(st.targets[0], ast.Name):
+                        nm_ = st.targets[0].id
+                        if isinstance(st.value, ast.Subscript) and isinstance(st.value.slice, ast.Slice) and window_of(st.value) is not None:
+                            pending[nm_] = (st.value, window_of(st.value))      # judged where the window is used
+                            continue
+                        pending.pop(nm_, None)
                     if isinstance(st, (ast.If, ast.While)):
                         walk(st.test, pc)
                         stmts(st.body)
